@@ -57,6 +57,10 @@ Inductive stmt :=
 
 Definition program := list stmt.
 
+(** The body of a clause as a statement list: [fallthrough] is a last statement that does nothing by
+    itself (an empty block); what follows it is decided by the switch. *)
+Definition case_body (body : list stmt) (ft : bool) : list stmt := if ft then body ++ [SBlock []] else body.
+
 (** 64-bit two's complement. *)
 Definition two63 : Z := 9223372036854775808.
 Definition wrap (z : Z) : Z := (z + two63) mod (2 * two63) - two63.
